@@ -34,20 +34,22 @@ def _dev(dev: str, expect: str) -> Dict[str, Any]:
 
 
 H1_GEN = [from_tlc.gen_h1_from_spec]
+# thorough tier: every (quiescent state, stimulus) pair of the small H1Conn instances (faults one kind at a time)
+H1_GRAPH = [from_tlc.gen_h1_from_graph]
 
 PROPS: Dict[str, Dict[str, Any]] = {
     "C01": {"monitor": "C01", "generators": [gen_h1.gen_c01, gen_h2.gen_h2_basic, sampled(gen_h1.gen_c06, 400)] + H1_GEN, "design": H1_DESIGN},
     "C02": {"monitor": "C02", "generators": [gen_h1.gen_c02, gen_h2.gen_h2_basic, sampled(gen_h1.gen_c06, 400), gen_h2.gen_flow] + H1_GEN, "design": H1_DESIGN},
-    "C03": {"monitor": "C03", "generators": [gen_h1.gen_c03, gen_h2.gen_h2_faults] + H1_GEN, "design": H1_DESIGN,
+    "C03": {"monitor": "C03", "generators": [gen_h1.gen_c03, gen_h2.gen_h2_faults] + H1_GEN + H1_GRAPH, "design": H1_DESIGN,
             "deviations": [_dev("DevDoubleLog", "AtMostOneAccess"), _dev("DevParked", "Released")]},
     "C05": {"parts": [
         {"monitor": "C05", "generators": [gen_h1.gen_c05, gen_h2.gen_h2_faults] + H1_GEN, "design": H1_DESIGN},
         # a WSGI application is an application too: the adapter must hand its failure on unfinished
         {"monitor": "C05W", "generators": [gen_wsgi.gen_c05w], "runner": "wsgi", "workers": ["wsgi"], "selftest": "C05W"},
     ]},
-    "C06": {"monitor": "C06", "generators": [gen_h1.gen_c06] + H1_GEN, "design": [dict(H1_DESIGN[0], coverage=True)] + H1_DESIGN[1:],
+    "C06": {"monitor": "C06", "generators": [gen_h1.gen_c06] + H1_GEN + H1_GRAPH, "design": [dict(H1_DESIGN[0], coverage=True)] + H1_DESIGN[1:],
             "deviations": [_dev("DevDiscPutBlocks", "Released")]},
-    "C07": {"monitor": "C07", "generators": [gen_h1.gen_c07, gen_h2.gen_h2_faults, sampled(gen_h1.gen_c06, 400)] + H1_GEN, "design": H1_DESIGN,
+    "C07": {"monitor": "C07", "generators": [gen_h1.gen_c07, gen_h2.gen_h2_faults, sampled(gen_h1.gen_c06, 400)] + H1_GEN + H1_GRAPH, "design": H1_DESIGN,
             "deviations": [_dev("DevParked", "Released"), _dev("DevIdleKeeps", "Released"),
                            _dev("DevDiscPutBlocks", "Released")]},
 }
@@ -63,7 +65,7 @@ def flat_c13(tier, rng):
             yield sub
 
 
-PROPS["C04"] = {"monitor": "C04", "generators": [gen_h2.gen_unusual, gen_h2.gen_h2_faults, gen_h1.gen_c06, gen_ws.gen_c10,
+PROPS["C04"] = {"monitor": "C04", "generators": [gen_h2.gen_unusual, gen_h2.gen_priority, gen_h2.gen_h2_faults, gen_h1.gen_c06, gen_ws.gen_c10,
                                                  gen_ws.gen_c11, flat_c13, gen_limits.gen_c18] + H1_GEN}
 H2_DESIGN = [
     {"module": "MC_H2Conn", "cfg": "MC_H2Conn_quick.cfg"},
@@ -76,12 +78,12 @@ def _h2dev(dev: str, expect: str, cfg: str = "MC_H2Conn_quick.cfg") -> Dict[str,
     return {"module": "MC_H2Conn", "cfg": cfg, "dev": dev, "expect": expect}
 
 
-PROPS["C08"] = {"monitor": "C08", "generators": [gen_h2.gen_release, gen_h2.gen_flow, from_tlc.gen_h2_from_spec],
+PROPS["C08"] = {"monitor": "C08", "generators": [gen_h2.gen_release, gen_h2.gen_flow, from_tlc.gen_h2_from_spec, from_tlc.gen_h2_from_graph],
                 "design": H2_DESIGN,
                 "deviations": [_h2dev("DevLowWater", "Bounded", "MC_H2Conn_grow.cfg"), _h2dev("DevCloseNoRelease", "NoStuckSend"),
                                _h2dev("DevResetNoRelease", "NoStuckSend")]}
 # (action coverage of the design instance is measured where the property is about that design: C06, C09)
-PROPS["C09"] = {"monitor": "C09", "generators": [gen_h2.gen_flow, gen_h2.gen_release, gen_h2.gen_h2_basic, from_tlc.gen_h2_from_spec],
+PROPS["C09"] = {"monitor": "C09", "generators": [gen_h2.gen_flow, gen_h2.gen_release, gen_h2.gen_h2_basic, from_tlc.gen_h2_from_spec, from_tlc.gen_h2_from_graph],
                 "design": [dict(H2_DESIGN[0], coverage="strict")] + H2_DESIGN[1:]}
 WS_DESIGN = [{"module": "MC_WSock", "cfg": "MC_WSock_quick.cfg", "coverage": "strict"}]
 
